@@ -166,6 +166,8 @@ pub struct World {
     pub overrides: HashMap<String, PathBuf>,
     pub files: HashMap<String, syn::File>,
     pub aliases: HashMap<String, RTy>,
+    /// `type X = T;` items that are not primitive aliases (`type Magics = [MagicConfiguration; 64]`), resolved on demand
+    pub raw_aliases: HashMap<String, syn::Type>,
     pub structs: HashMap<String, StructInfo>,
     pub enums: HashMap<String, EnumInfo>,
     pub consts: HashMap<(Option<String>, String), ConstInfo>,
